@@ -10,7 +10,9 @@ from jaqalpaq.error import JaqalError
 
 @spec
 def wf_filler(v) -> bool:
-    return isinstance(v, LetFiller) and isinstance(v.override_dict, dict) and isinstance(v.register_names, set)
+    return (isinstance(v, LetFiller) and isinstance(v.override_dict, dict) and isinstance(v.register_names, set)
+            # "a dictionary mapping strings to ints or floats" (fill_in_let's documented interface)
+            and forall_keys(v.override_dict, lambda k: is_int(dict_lookup(v.override_dict, k)) or is_float(dict_lookup(v.override_dict, k))))
 
 
 @spec
@@ -87,7 +89,7 @@ def let_qubit_ok(v, q) -> bool:
     """a qubit reference as LetFiller.visit_NamedQubit expects it (its precondition)"""
     return (type_is(q, NamedQubit) and is_str(q._name)
             and (isinstance(q._alias_from, Register) or isinstance(q._alias_from, Parameter)) and is_str(q._alias_from._name)
-            and (is_int(q._alias_index) or isinstance(q._alias_index, Parameter)
+            and (is_int(q._alias_index) or (isinstance(q._alias_index, Parameter) and is_str(q._alias_index._name))
                  or (type_is(q._alias_index, Constant) and (has_key(v.override_dict, q._alias_index._name) or is_int(q._alias_index._value)))))
 
 
@@ -111,6 +113,25 @@ def wf_lstmt(v, o) -> bool:
             and forall_range(dict_len(o._parameters), lambda j: let_arg_ok(v, dict_val_at(o._parameters, j))))
 
 
+@spec
+def let_free(sx) -> bool:
+    """C05, 'no gate argument, qubit index, loop count or subcircuit count refers to a constant any more': the emitted
+    S-expression mentions no let constant at any depth, and no object of the input tree (statement or qubit
+    reference) is handed through un-rewritten.  By the grammar of statement S-expressions."""
+    if isinstance(sx, list):
+        if len(sx) >= 2 and sx[0] == "gate":
+            return forall_range(len(sx) - 2, lambda k: let_free(sx[k + 2]))
+        if len(sx) >= 2 and sx[0] == "subcircuit_block":
+            return let_free(sx[1]) and forall_range(len(sx) - 2, lambda k: let_free(sx[k + 2]))
+        if len(sx) == 3 and sx[0] == "loop":
+            return let_free(sx[1]) and let_free(sx[2])
+        return len(sx) >= 1 and (sx[0] == "sequential_block" or sx[0] == "parallel_block") and forall_range(len(sx) - 1, lambda k: let_free(sx[k + 1]))
+    if isinstance(sx, tuple):
+        return len(sx) == 3 and sx[0] == "array_item" and not isinstance(sx[2], Constant)
+    return not (isinstance(sx, Constant) or isinstance(sx, NamedQubit) or isinstance(sx, GateStatement) or isinstance(sx, BlockStatement)
+                or isinstance(sx, LoopStatement))
+
+
 @contract("core.algorithm.fill_in_let:LetFiller.visit_LoopStatement", props=["C05", "C11"])
 class VisitLoop:
     """emits  ["loop", <count with constants substituted>, <block>]"""
@@ -121,6 +142,9 @@ class VisitLoop:
     def ensures(self, loop, result):
         return (isinstance(result, list) and len(result) == 3 and result[0] == "loop"
                 and same(result[1], subst(self, loop._iterations)))
+
+    def ensures_no_constant_left(self, loop, result):
+        return let_free(result)
 
     raises_only = ("JaqalError",)
 
@@ -144,6 +168,9 @@ class VisitBlock:
     def ensures_sequential(self, block, result):
         return implies(not block._subcircuit and not block._parallel, isinstance(result, list) and len(result) == len(block._statements) + 1
                        and result[0] == "sequential_block")
+
+    def ensures_no_constant_left(self, block, result):
+        return let_free(result)
 
     raises_only = ("JaqalError",)
 
@@ -175,7 +202,7 @@ class LetVisitQubit:
     def requires(self, qubit):
         return (wf_filler(self) and type_is(self, LetFiller) and isinstance(self.register_names, set) and type_is(qubit, NamedQubit) and is_str(qubit._name)
                 and (isinstance(qubit._alias_from, Register) or isinstance(qubit._alias_from, Parameter)) and is_str(qubit._alias_from._name)
-                and (is_int(qubit._alias_index) or isinstance(qubit._alias_index, Parameter)
+                and (is_int(qubit._alias_index) or (isinstance(qubit._alias_index, Parameter) and is_str(qubit._alias_index._name))
                      or (type_is(qubit._alias_index, Constant) and (has_key(self.override_dict, qubit._alias_index._name) or is_int(qubit._alias_index._value)))))
 
     def ensures_alias(self, qubit, result):
@@ -187,6 +214,9 @@ class LetVisitQubit:
                        and implies(type_is(qubit._alias_index, Constant), same(result[2], cval(self, qubit._alias_index)))
                        and implies(is_int(qubit._alias_index), same(result[2], qubit._alias_index))
                        and implies(isinstance(qubit._alias_index, Parameter), same(result[2], qubit._alias_index._name)))
+
+    def ensures_no_constant_left(self, qubit, result):
+        return let_free(result)
 
     raises_only = ("JaqalError",)
 
@@ -212,6 +242,18 @@ class VisitGate:
                             and implies(type_is(dict_val_at(gate._parameters, j), NamedQubit) and not (dict_val_at(gate._parameters, j)._name in self.register_names),
                                         isinstance(result[j + 2], tuple) and len(result[j + 2]) == 3 and result[j + 2][0] == "array_item"
                                         and result[j + 2][1] == dict_val_at(gate._parameters, j)._alias_from._name))
+
+    def ensures_no_constant_in_args_a(self, gate, result):
+        return forall_range(dict_len(gate._parameters), lambda j: implies(type_is(dict_val_at(gate._parameters, j), Constant), let_free(result[j + 2])))
+
+    def ensures_no_constant_in_args_b(self, gate, result):
+        return forall_range(dict_len(gate._parameters), lambda j: implies(not type_is(dict_val_at(gate._parameters, j), Constant) and not type_is(dict_val_at(gate._parameters, j), NamedQubit), let_free(result[j + 2])))
+
+    def ensures_no_constant_in_args_c(self, gate, result):
+        return forall_range(dict_len(gate._parameters), lambda j: implies(type_is(dict_val_at(gate._parameters, j), NamedQubit), let_free(result[j + 2])))
+
+    def ensures_no_constant_left(self, gate, result):
+        return let_free(result)
 
     raises_only = ("JaqalError",)
 
@@ -259,5 +301,28 @@ class VisitRegister:
                        isinstance(result, list) and len(result) == 6 and result[0] == "map" and result[1] == reg._name
                        and result[2] == reg._alias_from._name and same(result[3], subst(self, reg._alias_slice.start))
                        and same(result[4], subst(self, reg._alias_slice.stop)) and same(result[5], subst(self, reg._alias_slice.step)))
+
+    raises_only = ("JaqalError",)
+
+
+from jaqalpaq.core.macro import Macro
+
+
+@contract("core.algorithm.fill_in_let:LetFiller.visit_Macro", props=["C05"])
+class VisitMacro:
+    """a macro is re-emitted as ["macro", name, <parameter names in order>, <body>]: the parameter list is untouched
+    (parameters that shadow a constant are left alone) and no constant is left in the body"""
+
+    def requires(self, macro):
+        return (wf_filler(self) and type_is(self, LetFiller) and type_is(macro, Macro) and is_str(macro._name) and isinstance(macro._parameters, list)
+                and forall_range(len(macro._parameters), lambda k: type_is(macro._parameters[k], Parameter) and is_str(macro._parameters[k]._name))
+                and type_is(macro._body, BlockStatement) and wf_lstmt(self, macro._body))
+
+    def ensures_shape(self, macro, result):
+        return (isinstance(result, list) and len(result) == len(macro._parameters) + 3 and result[0] == "macro" and result[1] == macro._name
+                and forall_range(len(macro._parameters), lambda k: result[k + 2] == macro._parameters[k]._name))
+
+    def ensures_body(self, macro, result):
+        return let_free(result[len(macro._parameters) + 2])
 
     raises_only = ("JaqalError",)
